@@ -7,5 +7,6 @@ From Coq Require Extraction ExtrOcamlBasic.
 From Chess3 Require Export Model.TimeCtl.
 From Chess3 Require Export Model.BoardDef.
 From Chess3 Require Export Model.BoardStreams.
+From Chess3 Require Export Model.SeeStreams.
 
 Extraction Language OCaml.
